@@ -41,6 +41,88 @@ pub struct RestartFlags {
     pub rollovers: u64,
 }
 
+/// Content-dependent behaviour (deterministic, sharded; shared with C18): a record whose payload is crafted so that the
+/// checksum field of its frame header has a chosen value (0, values with leading / trailing zero bytes, all ones —
+/// each has probability 2^-32 per frame with ordinary payloads, i.e. it does happen in a WAL that lives long enough);
+/// records of another queue are appended after it and the log is restarted: everything must still be there.
+pub fn crafted_checksum_campaign(env: &mut Env, shard: u32, shards: u32) -> Result<(), CaseError> {
+    use crate::ops::{Pay, QName};
+    const TARGETS: [u32; 8] = [0, 1, 0x0100_0000, 0x0000_00FF, 0xFF00_0000, 0xFFFF_FFFF, 0x0000_FFFF, 0x0001_0000];
+    for (variant, target) in TARGETS.iter().enumerate() {
+        for warmup in 0..2u32 {
+            let cell = variant as u32 * 2 + warmup;
+            if cell % shards != shard {
+                continue;
+            }
+            let dir = env.scratch.fresh("crafted-crc");
+            let mut exec = Exec::new(&dir, Policy::DEFAULT)?;
+            exec.step_concrete(COp::Create { q: QName::plain("a") })?;
+            exec.step_concrete(COp::Create { q: QName::plain("b") })?;
+            exec.step_concrete(COp::Append { q: QName::plain("b"), pos: None, batch: vec![Pay { len: 20, seed: 1, style: 0 }] })?;
+            if warmup == 1 {
+                exec.step_concrete(COp::Append { q: QName::plain("a"), pos: None, batch: vec![Pay { len: 700, seed: 2, style: 0 }] })?;
+            }
+            // the crafted record of queue a: single-frame entry = tag 4 | position | name len | "a" | position | len | payload
+            let position = exec.model.queues.get("a").map(|queue| queue.next).unwrap_or(0);
+            let body_len = 60usize;
+            let mut payload = crate::util::fill(0xC4C ^ cell as u64, body_len, 0);
+            let mut crc_input: Vec<u8> = vec![1u8]; // frame type Full
+            crc_input.push(4);
+            crc_input.extend_from_slice(&position.to_le_bytes());
+            crc_input.extend_from_slice(&1u16.to_le_bytes());
+            crc_input.extend_from_slice(b"a");
+            crc_input.extend_from_slice(&position.to_le_bytes());
+            crc_input.extend_from_slice(&((body_len + 4) as u32).to_le_bytes());
+            crc_input.extend_from_slice(&payload);
+            let Some(suffix) = crate::util::forge_crc_suffix(&crc_input, *target) else {
+                return Err(CaseError::Engine("cannot forge a CRC suffix".to_string()));
+            };
+            payload.extend_from_slice(&suffix);
+            let frames_before = exec.driver.tracer.frames.len();
+            {
+                let log = exec.driver.log.as_mut().unwrap();
+                exec.driver.tracer.begin_op(3000);
+                log.append_record("a", None, &payload[..]).map_err(|err| CaseError::Engine(format!("crafted append: {err}")))?;
+                exec.driver.tracer.feed(mrecordlog::verif_hooks::take_events()).map_err(CaseError::Engine)?;
+                exec.driver.tracer.end_op(3000);
+            }
+            // self-check: the frame really carries the chosen checksum (read back from the bytes the writer was handed)
+            let frame = exec.driver.tracer.frames[frames_before..].first().cloned();
+            let Some(frame) = frame else {
+                return Err(CaseError::Engine("crafted record produced no frame".to_string()));
+            };
+            exec.driver.close()?;
+            let on_disk = std::fs::read(dir.join(&frame.name)).map_err(|err| CaseError::Engine(format!("read wal: {err}")))?;
+            let header = &on_disk[frame.off as usize..frame.off as usize + 7];
+            if header[..4] != target.to_le_bytes() || exec.driver.tracer.frames[frames_before..].len() != 1 {
+                env.class("crafted-crc:layout-skipped");
+                continue;
+            }
+            // more records of the other queue, then a restart
+            let step = exec.step_concrete(COp::Restart { policy: None })?;
+            exec.usable_or_skip(&step)?;
+            exec.step_concrete(COp::Append { q: QName::plain("b"), pos: None, batch: vec![Pay { len: 30, seed: 3, style: 0 }] })?;
+            exec.step_concrete(COp::Append { q: QName::plain("b"), pos: None, batch: vec![Pay { len: 40, seed: 4, style: 0 }] })?;
+            let before = exec.driver.observe().map_err(|_| CaseError::Skip("live-state-unobservable".to_string()))?;
+            let step = exec.step_concrete(COp::Restart { policy: None })?;
+            env.evals(1);
+            env.class("crafted-crc:restart-checked");
+            let what = format!("a record of queue \"a\" whose frame header carries the checksum {target:#010x} (crafted payload), then records of queue \"b\", then a restart");
+            if step.real.outcome != Outcome::Restarted {
+                return Err(exec.failure(format!("{what}: re-opening failed: {:?}", step.real.outcome), "crafted-checksum-reopen-failed", json!({"crafted_crc": cell})));
+            }
+            let after = exec.driver.observe().map_err(|msg| exec.failure(format!("{what}: {msg}"), "observe-failed-after-restart", json!({"crafted_crc": cell})))?;
+            if let Some(diff) = crate::model::diff_states(&before, &after) {
+                return Err(exec.failure(format!("{what}: the state after re-opening differs from the state before the drop: {diff}"), "crafted-checksum-changes-state", json!({"crafted_crc": cell})));
+            }
+            env.nontrivial(hash64(&("crafted-crc", cell)));
+            exec.driver.close()?;
+            env.scratch.remove(&dir);
+        }
+    }
+    Ok(())
+}
+
 impl Property for C01 {
     fn id(&self) -> &'static str {
         "C01"
@@ -52,7 +134,9 @@ impl Property for C01 {
          persist policy, changed at restarts) with Restart ops at generated points and one forced final restart; \
          oracle (model-free): observe(before drop) == observe(after open) (queues, positions, payload bytes, next \
          position, through the public read API), re-open must succeed, then append(None) on every queue must return \
-         last_position+1 as seen after the restart. The reference model only resolves the generated selectors; a live \
+         last_position+1 as seen after the restart. Plus a deterministic content-dependent campaign: records crafted so that their frame \
+         header carries checksum 0, 1, 0x01000000, 0xFF, 0xFF000000, 0xFFFFFFFF, ..., followed by other queues' records and a \
+         restart. The reference model only resolves the generated selectors; a live \
          call that diverges from it makes the case 'skipped' (that is C05's concern), never a C01 violation. \
          evaluations = restarts checked. non-trivial = history with a restart that happens after >= 1 WAL file \
          was unlinked, or while a queue is empty with next > 0, or after a delete+re-create; distinct = hash of \
@@ -79,7 +163,14 @@ impl Property for C01 {
         super::case_strategy(&gen_cfg(tier), Policy::ALL.to_vec(), 1)
     }
 
+    fn fixed_work(&self, env: &mut Env, shard: u32, shards: u32) -> Result<(), CaseError> {
+        crafted_checksum_campaign(env, shard, shards)
+    }
+
     fn run(&self, case: &Case, env: &mut Env) -> Result<(), CaseError> {
+        if let Some(cell) = case.extra.as_ref().and_then(|extra| extra.get("crafted_crc")).and_then(|value| value.as_u64()) {
+            return crafted_checksum_campaign(env, cell as u32, 16);
+        }
         let dir = env.scratch.fresh("c01");
         let mut exec = Exec::new(&dir, case.policy)?;
         let mut flags = RestartFlags {
